@@ -179,3 +179,20 @@ Definition run_node (l : list N) : list N :=
       end
   | _ => [9]
   end.
+
+(* ------------------------------------------------------------------ *)
+(* std::path algebra (C02 C16)                                          *)
+(* ------------------------------------------------------------------ *)
+From XcpModel Require Import Paths.
+
+(* [na; a bytes; b bytes] -> components a ++ [99] ++ components b ++ [99] ++ join ++ [99] ++ strip ++ [99; eq] *)
+Definition run_paths (l : list N) : list N :=
+  match l with
+  | na :: r =>
+      let '(a, b) := take_drop (N.to_nat na) r in
+      let pa := parse_path a in let pb := parse_path b in
+      encode_path pa ++ [99] ++ encode_path pb ++ [99] ++ encode_path (join pa pb) ++ [99] ++
+      (match strip_prefix pa pb with Some s => 1 :: encode_path s | None => [0] end) ++ [99; b2n (path_eqb pa pb)] ++
+      (match file_name pa with Some n => 1 :: n | None => [0] end)
+  | [] => [9]
+  end.
